@@ -33,7 +33,9 @@ Cell(row, col) == IF col \in DOMAIN row THEN row[col] ELSE Absent
 Empty(c) == c.t \in {"absent", "blank"}
 
 (* ---------------- scalar decoders ---------------- *)
-Tok(c) == IF c.t = "id" THEN c.v ELSE 0                       \* "" for an empty cell
+(* the token of the text of a cell: its pool token, 0 for an empty cell, and -1 (what the harness projects a  *)
+(* string outside the pools to) for any other non-empty text - every text is a valid identifier or name      *)
+Tok(c) == IF c.t = "id" THEN c.v ELSE IF Empty(c) THEN 0 ELSE 0 - 1
 TokOr(c, d) == IF Empty(c) THEN d ELSE Tok(c)                 \* OptionalColumn.ReadOr
 IntOf(c) == IF c.t = "num" THEN Some(c.v) ELSE None           \* strconv.Atoi / ParseInt
 DecOf(c) == IF c.t = "dec" THEN Some(c.v) ELSE None           \* parseFloat64 (exact decimal tokens)
